@@ -134,7 +134,18 @@ UnOp(op, v) ==
 FrameOf(fr, name) ==
   LET S == {i \in 1..Len(fr) : name \in DOMAIN fr[i]} IN IF S = {} THEN 0 ELSE SetMin(S)
 Lookup(fr, name) == LET i == FrameOf(fr, name) IN IF i = 0 THEN VUnset ELSE fr[i][name]
-Captured(fr, name) == LET i == FrameOf(fr, name) IN i # 0 /\ i # 1 /\ i # Len(fr)
+\* A match expression runs its selected arm in a frame of its own (marked with the pseudo-variable
+\* "<match>"); it belongs to the function activation around it.  A name is captured when it is found
+\* beyond the innermost function frame and is not a global (dynamic scoping, which the statement leaves open).
+MatchMark == "<match>"
+IsMatchFrame(f) == MatchMark \in DOMAIN f
+OwnTop(fr) == SetMin({j \in 1..Len(fr) : ~IsMatchFrame(fr[j])})
+Captured(fr, name) == LET i == FrameOf(fr, name) IN i # 0 /\ i > OwnTop(fr) /\ i # Len(fr)
+\* names bound by a pattern alias the cells of the subject; the machine binds by value, so a run that
+\* assigns to such a name, or changes a container whose elements are bound, leaves the defined core
+BoundName(fr, name) == LET i == FrameOf(fr, name) IN i # 0 /\ IsMatchFrame(fr[i]) /\ name \in fr[i][MatchMark].names
+AliasHitIds(fr, id) == id \in UNION {fr[j]["<match>"].src : j \in {k \in 1..Len(fr) : "<match>" \in DOMAIN fr[k]}}
+AliasedIds(fr) == UNION {fr[j][MatchMark].src : j \in {k \in 1..Len(fr) : IsMatchFrame(fr[k])}}
 WithVar(f, name, v) == [x \in (DOMAIN f) \cup {name} |-> IF x = name THEN v ELSE f[x]]
 \* reading a name that exists nowhere creates it, unset, in the current frame
 Touch(fr, name) == IF FrameOf(fr, name) = 0 THEN [fr EXCEPT ![1] = WithVar(fr[1], name, VUnset)] ELSE fr
@@ -205,6 +216,7 @@ BindDollar(s, x) ==
   ELSE [s EXCEPT !.dollar = InScalar(x)]
 
 BaseOf(s, n) == IF n = "$" THEN s.dollar ELSE Lookup(s.frames, n)
+AliasHit(s, n) == LET b == BaseOf(s, n) IN b.t = "ref" /\ AliasHitIds(s.frames, b.id)
 SetBase(s, n, v) == IF n = "$" THEN [s EXCEPT !.dollar = v] ELSE [s EXCEPT !.frames = Assign(s.frames, n, v)]
 \* an unset variable that is indexed becomes an empty array (numeric key) or an empty object
 Materialise(s, n, key) ==
@@ -267,6 +279,43 @@ Mark(s, cond, w) == IF cond /\ ~s.open THEN [s EXCEPT !.open = TRUE, !.why = w] 
 RECURSIVE JoinSp(_)
 JoinSp(ss) == IF ss = <<>> THEN "" ELSE IF Len(ss) = 1 THEN ss[1] ELSE ss[1] \o " " \o JoinSp(Tail(ss))
 
+\* --- match (C19): patterns are a literal (equal by the comparison of 3.4), a name (matches anything and
+\* binds it), or an array pattern (an array of exactly that length whose elements match, binding recursively).
+\* Alternatives and cases are tried in order; a comparison that fails (a container against a scalar
+\* literal) is a fault.  Results: [k |-> "yes", b |-> <<name, value>> pairs, src |-> container ids] |
+\* [k |-> "no"] | [k |-> "err"] | [k |-> "open"]
+LitVal(x) == IF x.k = "num" THEN VNum(x.v) ELSE IF x.k = "str" THEN VStr(x.v) ELSE IF x.k = "bool" THEN VBool(x.v) ELSE VNull
+RECURSIVE PatMatch(_, _, _), PatItems(_, _, _, _, _, _)
+PatMatch(h, v, p) ==
+  CASE p.k = "pid" -> [k |-> "yes", b |-> <<<<p.n, v>>>>, src |-> {}]
+    [] p.k = "plit" ->
+         LET r == IF NumOpen(v) THEN ROpen ELSE Compare("==", v, LitVal(p.v)) IN
+         IF r.k = "open" THEN [k |-> "open"] ELSE IF r.k = "err" THEN [k |-> "err"]
+         ELSE IF r.v.v THEN [k |-> "yes", b |-> <<>>, src |-> {}] ELSE [k |-> "no"]
+    [] p.k = "parr" ->
+         IF v.t # "ref" THEN [k |-> "no"]
+         ELSE IF h[v.id].t # "arr" \/ Len(h[v.id].items) # Len(p.items) THEN [k |-> "no"]
+         ELSE PatItems(h, h[v.id].items, p.items, 1, <<>>, {v.id})
+PatItems(h, items, pats, i, acc, src) ==
+  IF i > Len(pats) THEN [k |-> "yes", b |-> acc, src |-> src]
+  ELSE LET r == PatMatch(h, items[i], pats[i]) IN
+       IF r.k = "yes" THEN PatItems(h, items, pats, i + 1, acc \o r.b, src \cup r.src) ELSE r
+RECURSIVE AltMatch(_, _, _, _), CaseSel(_, _, _, _)
+AltMatch(h, v, pats, j) ==
+  IF j > Len(pats) THEN [k |-> "no"]
+  ELSE LET r == PatMatch(h, v, pats[j]) IN IF r.k = "no" THEN AltMatch(h, v, pats, j + 1) ELSE r
+CaseSel(h, v, cases, i) ==
+  IF i > Len(cases) THEN [k |-> "none"]
+  ELSE LET r == AltMatch(h, v, cases[i].pats, 1) IN
+       IF r.k = "no" THEN CaseSel(h, v, cases, i + 1)
+       ELSE IF r.k = "yes" THEN [k |-> "yes", i |-> i, b |-> r.b, src |-> r.src] ELSE [k |-> r.k]
+\* the frame of the selected arm: the bound names (a later binding of the same name wins) and the mark
+MatchFrame(b, src) ==
+  LET names == {b[i][1] : i \in 1..Len(b)} IN
+  [x \in names \cup {MatchMark} |->
+     IF x = MatchMark THEN [names |-> names, src |-> IF names = {} THEN {} ELSE src]
+     ELSE b[SetMax({i \in 1..Len(b) : b[i][1] = x})][2]]
+
 \* --- one step with no signal pending: dispatch on the top of the control stack
 StepExpr(s, e, rest) ==
   CASE e.k = "num" -> [s EXCEPT !.ctl = rest, !.vs = <<VNum(e.v)>> \o s.vs]
@@ -293,6 +342,7 @@ StepExpr(s, e, rest) ==
          [s EXCEPT !.ctl = [i \in 1..Len(e.items) |-> E(e.items[i])] \o <<[t |-> "mkarr", n |-> Len(e.items)]>> \o rest]
     [] e.k = "obj" ->
          [s EXCEPT !.ctl = [i \in 1..Len(e.vals) |-> E(e.vals[i])] \o <<[t |-> "mkobj", keys |-> e.keys]>> \o rest]
+    [] e.k = "match" -> [s EXCEPT !.ctl = <<E(e.e), [t |-> "matchsel", cases |-> e.cases]>> \o rest]
     [] e.k = "idx" -> [s EXCEPT !.ctl = <<E(e.key), [t |-> "idxread", n |-> e.n]>> \o rest]
     [] e.k = "asgidx" ->
          \* n[key] = e: the target (and its key) first, then the value; n[key] op= e is n[key] = n[key] op e
@@ -307,7 +357,7 @@ StepExpr(s, e, rest) ==
              new == IF e.op = "++" THEN old + 1 ELSE old - 1
          IN Mark([s EXCEPT !.ctl = rest, !.frames = Assign(s.frames, e.n, VNum(new)),
                            !.vs = <<VNum(IF e.post THEN old ELSE new)>> \o s.vs],
-                 Captured(s.frames, e.n) \/ ~InRange(new) \/ NumOpen(Lookup(s.frames, e.n)), "inc " \o e.n)
+                 Captured(s.frames, e.n) \/ BoundName(s.frames, e.n) \/ ~InRange(new) \/ NumOpen(Lookup(s.frames, e.n)), "inc " \o e.n)
 
 \* for (v1[, v2] in n): the loop variables are found or created first, then the iterable is read;
 \* an array is iterated over its length at loop start, an object over its keys in key order
@@ -318,7 +368,7 @@ ForInEnter(s, x, rest) ==
       s1 == Mark([s EXCEPT !.frames = fr2], Captured(s.frames, x.v1) \/ (x.v2 # "" /\ Captured(s.frames, x.v2)), "captured loop variable")
       it == BaseOf(s1, x.n)
       item(kind, id, keys) == [t |-> "loop", kind |-> "forin", fk |-> kind, id |-> id, keys |-> keys, i |-> 0,
-                               v1 |-> x.v1, v2 |-> x.v2, b |-> x.b, ph |-> "test"]
+                               v1 |-> x.v1, v2 |-> x.v2, b |-> x.b, ph |-> "test", base |-> Len(s.vs)]
   IN IF it.t = "ref" THEN
         LET c == s1.heap[it.id] IN
         IF c.t = "arr" THEN [s1 EXCEPT !.ctl = <<item("arr", it.id, [j \in 1..Len(c.items) |-> ""])>> \o rest]
@@ -346,8 +396,8 @@ StepStmt(s, x, rest) ==
     [] x.k = "expr" -> [s EXCEPT !.ctl = <<E(x.e), [t |-> "drop"]>> \o rest]
     [] x.k = "block" -> [s EXCEPT !.ctl = [i \in 1..Len(x.b) |-> S(x.b[i])] \o rest]
     [] x.k = "if" -> [s EXCEPT !.ctl = <<E(x.c), [t |-> "if", th |-> x.th, el |-> x.el]>> \o rest]
-    [] x.k = "while" -> [s EXCEPT !.ctl = <<[t |-> "loop", kind |-> "while", c |-> x.c, post |-> x.c, b |-> x.b, ph |-> "test"]>> \o rest]
-    [] x.k = "for" -> [s EXCEPT !.ctl = <<E(x.init), [t |-> "drop"], [t |-> "loop", kind |-> "for", c |-> x.c, post |-> x.post, b |-> x.b, ph |-> "test"]>> \o rest]
+    [] x.k = "while" -> [s EXCEPT !.ctl = <<[t |-> "loop", kind |-> "while", c |-> x.c, post |-> x.c, b |-> x.b, ph |-> "test", base |-> Len(s.vs)]>> \o rest]
+    [] x.k = "for" -> [s EXCEPT !.ctl = <<E(x.init), [t |-> "drop"], [t |-> "loop", kind |-> "for", c |-> x.c, post |-> x.post, b |-> x.b, ph |-> "test", base |-> Len(s.vs)]>> \o rest]
     [] x.k = "forin" -> ForInEnter(s, x, rest)
     [] x.k \in {"break", "continue", "exit", "next"} -> [s EXCEPT !.ctl = rest, !.sig = x.k]
     [] x.k = "return" ->
@@ -378,6 +428,7 @@ MethodCall(s, it, rest) ==
       ok(s2, v) == [s2 EXCEPT !.ctl = rest, !.vs = <<v>> \o vs0]
       err == Fault([s1 EXCEPT !.vs = vs0], rest)
   IN IF it.m \notin {"push", "pop", "length"} THEN Opened(s, "method " \o it.m)
+     ELSE IF it.m # "length" /\ AliasHit(s, it.n) THEN Opened(s, "aliased container")
      ELSE IF \E i \in 1..it.na : args[i].t = "unset" THEN Opened(s, "unset argument")
      ELSE IF b.t = "ref" THEN
         LET c == s1.heap[b.id] IN
@@ -411,7 +462,7 @@ StepOp(s, it, rest) ==
     [] it.t = "drop" -> [s EXCEPT !.ctl = rest, !.vs = Tail(s.vs)]
     [] it.t = "store" ->    \* the value of an assignment is the assigned value; scalars are copied
          Mark([s EXCEPT !.ctl = rest, !.frames = Assign(s.frames, it.n, s.vs[1])],
-              Captured(s.frames, it.n) \/ s.vs[1].t = "unset", "store " \o it.n)
+              Captured(s.frames, it.n) \/ BoundName(s.frames, it.n) \/ s.vs[1].t = "unset", "store " \o it.n)
     [] it.t = "print" ->
          LET args == TopN(s.vs, it.n) IN
          Mark([s EXCEPT !.ctl = rest, !.vs = DropN(s.vs, it.n),
@@ -434,6 +485,22 @@ StepOp(s, it, rest) ==
                  ELSE Mark([s EXCEPT !.vs = DropN(s.vs, it.n), !.frames = <<fr>> \o s.frames, !.depth = s.depth + 1,
                                      !.ctl = <<S(f.body), [t |-> "callk", base |-> Len(s.vs) - it.n]>> \o rest],
                            \E i \in 1..it.n : args[i].t = "unset", "unset argument")
+    [] it.t = "matchsel" ->
+         \* the subject is on the stack; the first case with a matching alternative is selected, its arm runs in
+         \* a frame holding the bindings (refused beyond the depth limit); no case: null
+         LET v == s.vs[1]
+             r == CaseSel(s.heap, v, it.cases, 1)
+         IN IF v.t = "unset" \/ r.k = "open" THEN Opened(s, "match subject")
+            ELSE IF r.k = "err" THEN Fault([s EXCEPT !.vs = Tail(s.vs)], rest)
+            ELSE IF r.k = "none" THEN [s EXCEPT !.ctl = rest, !.vs = <<VNull>> \o Tail(s.vs)]
+            ELSE IF s.depth + 1 > CoreCallLimit THEN Fault([s EXCEPT !.vs = Tail(s.vs)], rest)
+            ELSE LET c == it.cases[r.i] IN
+                 [s EXCEPT !.vs = Tail(s.vs), !.frames = <<MatchFrame(r.b, r.src)>> \o s.frames, !.depth = s.depth + 1,
+                           !.ctl = (IF c.bk = "expr" THEN <<E(c.b), [t |-> "matchk", bk |-> "expr"]>>
+                                    ELSE <<S(c.b), [t |-> "matchk", bk |-> "block"]>>) \o rest]
+    [] it.t = "matchk" ->   \* the arm is done: an expression arm yields its value, a block arm null
+         [s EXCEPT !.ctl = rest, !.frames = Tail(s.frames), !.depth = s.depth - 1,
+                   !.vs = IF it.bk = "expr" THEN s.vs ELSE <<VNull>> \o s.vs]
     [] it.t = "callk" ->    \* the body fell off its end: the call yields null
          [s EXCEPT !.ctl = rest, !.frames = Tail(s.frames), !.depth = s.depth - 1, !.vs = <<VNull>> \o s.vs]
     [] it.t = "loop" /\ it.kind = "forin" -> ForInStep(s, it, rest)
@@ -475,7 +542,8 @@ StepOp(s, it, rest) ==
     [] it.t = "idxwrite" ->     \* vs: value on top, key below; the value of the assignment is the value
          LET r == IdxWrite(s, it.n, s.vs[2], s.vs[1]) IN
          IF s.vs[1].t = "unset" THEN Opened(s, "store unset")
-         ELSE IF r.k = "ok" THEN Mark([r.s EXCEPT !.ctl = rest, !.vs = <<s.vs[1]>> \o DropN(s.vs, 2)], it.n # "$" /\ Captured(s.frames, it.n), "captured " \o it.n)
+         ELSE IF r.k = "ok" THEN Mark([r.s EXCEPT !.ctl = rest, !.vs = <<s.vs[1]>> \o DropN(s.vs, 2)],
+                                      (it.n # "$" /\ Captured(s.frames, it.n)) \/ AliasHit(s, it.n), "captured / aliased " \o it.n)
          ELSE IF r.k = "err" THEN Fault([r.s EXCEPT !.vs = DropN(s.vs, 2)], rest)
          ELSE Opened(s, "index write " \o it.n)
     [] it.t = "incidx" ->       \* n[key]++ : a missing element counts as 0 and is created
@@ -488,7 +556,7 @@ StepOp(s, it, rest) ==
                      new == IF it.op = "++" THEN old + 1 ELSE old - 1
                      w == IdxWrite(r.s, it.n, key, VNum(new))
                  IN IF w.k = "ok" THEN Mark([w.s EXCEPT !.ctl = rest, !.vs = <<VNum(IF it.post THEN old ELSE new)>> \o Tail(s.vs)],
-                                            ~InRange(new) \/ (it.n # "$" /\ Captured(s.frames, it.n)), "incidx")
+                                            ~InRange(new) \/ (it.n # "$" /\ Captured(s.frames, it.n)) \/ AliasHit(s, it.n), "incidx")
                     ELSE IF w.k = "err" THEN Fault([w.s EXCEPT !.vs = Tail(s.vs)], rest)
                     ELSE Opened(s, "index write " \o it.n)
     [] it.t = "mcall" -> MethodCall(s, it, rest)
@@ -499,8 +567,11 @@ StepOp(s, it, rest) ==
 
 \* --- a signal is pending: unwind to its consumer
 StepSignal(s, it, rest) ==
-  CASE it.t = "loop" /\ s.sig = "break" -> [s EXCEPT !.ctl = rest, !.sig = "none"]
-    [] it.t = "loop" /\ s.sig = "continue" -> [s EXCEPT !.sig = "none"]   \* the loop item stays: post / test next
+  \* (a break / continue raised inside an expression - a match arm - abandons the operands collected so far)
+  CASE it.t = "loop" /\ s.sig = "break" -> [s EXCEPT !.ctl = rest, !.sig = "none", !.vs = SubSeq(s.vs, Len(s.vs) - it.base + 1, Len(s.vs))]
+    [] it.t = "loop" /\ s.sig = "continue" ->    \* the loop item stays: post / test next
+         [s EXCEPT !.sig = "none", !.vs = SubSeq(s.vs, Len(s.vs) - it.base + 1, Len(s.vs))]
+    [] it.t = "matchk" -> [s EXCEPT !.ctl = rest, !.frames = Tail(s.frames), !.depth = s.depth - 1]   \* every signal leaves the arm's frame
     [] it.t = "callk" /\ s.sig = "return" ->
          \* the returned value is on top of the value stack; values pushed by the callee's
          \* unfinished expressions below it are discarded
@@ -536,6 +607,6 @@ CoreTypeOK ==
   /\ Len(st.frames) = 1 + st.depth
   /\ st.depth <= CoreCallLimit
 CoreDepthMirrorsCalls == st.outcome = "running" =>
-  st.depth = Cardinality({i \in 1..Len(st.ctl) : st.ctl[i].t = "callk"})
+  st.depth = Cardinality({i \in 1..Len(st.ctl) : st.ctl[i].t \in {"callk", "matchk"}})
 CoreEndsClean == (st.outcome # "running" /\ ~st.open) => (st.sig = "none" /\ Len(st.frames) = 1)
 =============================================================================
